@@ -59,12 +59,21 @@ def apply_plain(d, op):
         elif k == "append":
             d[op[1]].append(op[2])
         elif k == "listset":
+            if not isinstance(d[op[1]], list):
+                raise TypeError("list item assignment on a non-list (a JSON mapping has no integer keys)")
             d[op[1]][op[2]] = op[3]
         else:
             raise ValueError(op)
     except (KeyError, TypeError, AttributeError, IndexError) as e:
         return None, type(e).__name__
     return None, None
+
+
+def applicable(d, op):
+    """Operations whose plain-dict meaning has no JSON counterpart are not performed at all."""
+    if op[0] == "listset":
+        return isinstance(d.get(op[1]), list) or op[1] not in d or not isinstance(d.get(op[1]), dict)
+    return True
 
 
 def apply_real(owner, op):
@@ -169,6 +178,14 @@ def type_only_difference(a, b):
         return False
 
 
+def none_over_container(seen, model):
+    """Some key holds None in the dict while the handle still shows the container that was there before."""
+    try:
+        return any(v is None and isinstance(seen.get(k), (dict, list)) for k, v in model.items())
+    except Exception:
+        return False
+
+
 def laminar_bracketings(n):
     """All families of <=2 non-crossing intervals [i,j) over n operations (incl. the empty family)."""
     ivs = [(i, j) for i in range(n) for j in range(i + 1, n + 1)]
@@ -197,25 +214,26 @@ def run_buffered(hist, brackets, capacity, salt):
                     cm.__enter__()
                     stack.append((iv, cm))
                 doc = DOC_OF[target]
-                want_ret, want_exc = apply_plain(w.model[doc], op)
-                got_ret, got_exc = apply_real(w.owners[target], op)
-                w.note(target, op)
-                if got_exc is not None and want_exc is None:
-                    out.append(("buffered-op-raises", f"op {k} {op} on {target} raised {got_exc} inside_block={bool(stack)}",
-                                {"inside_block": bool(stack), "exc": got_exc}))
-                if got_exc is None and want_exc is None and not canon.typed_eq(got_ret, want_ret):
-                    out.append(("buffered-op-outcome-differs",
-                                f"op {k} {op} on {target}: returned {got_ret!r}/{got_exc}, dict gives {want_ret!r}/{want_exc}",
-                                {"inside_block": bool(stack)}))
-                # reads inside the block through the writing handle see the block's own writes
-                if op[0] == "remove":
-                    seen = w.model[doc]  # reading job.doc would re-initialise the removed job
-                else:
-                    seen = canon.plain(w.owners[target].doc())
-                if not canon.typed_eq(seen, w.model[doc]):
-                    out.append(("read-through-writing-handle-differs",
-                                f"after op {k} {op} on {target} (inside_block={bool(stack)}): handle reads {seen!r}, "
-                                f"dict is {w.model[doc]!r}", {"inside_block": bool(stack)}))
+                if applicable(w.model[doc], op):
+                    want_ret, want_exc = apply_plain(w.model[doc], op)
+                    got_ret, got_exc = apply_real(w.owners[target], op)
+                    w.note(target, op)
+                    if got_exc is not None and want_exc is None:
+                        out.append(("buffered-op-raises", f"op {k} {op} on {target} raised {got_exc} inside_block={bool(stack)}",
+                                    {"inside_block": bool(stack), "exc": got_exc}))
+                    if got_exc is None and want_exc is None and not canon.typed_eq(got_ret, want_ret):
+                        out.append(("buffered-op-outcome-differs",
+                                    f"op {k} {op} on {target}: returned {got_ret!r}/{got_exc}, dict gives {want_ret!r}/{want_exc}",
+                                    {"inside_block": bool(stack)}))
+                    # reads inside the block through the writing handle see the block's own writes
+                    if op[0] == "remove":
+                        seen = w.model[doc]  # reading job.doc would re-initialise the removed job
+                    else:
+                        seen = canon.plain(w.owners[target].doc())
+                    if not canon.typed_eq(seen, w.model[doc]):
+                        out.append(("read-through-writing-handle-differs",
+                                    f"after op {k} {op} on {target} (inside_block={bool(stack)}): handle reads {seen!r}, "
+                                    f"dict is {w.model[doc]!r}", {"inside_block": bool(stack)}))
                 while stack and stack[-1][0][1] == k + 1:
                     iv, cm = stack.pop()
                     cm.__exit__(None, None, None)
@@ -266,6 +284,8 @@ def execute(hist):
         for k, (target, op) in enumerate(hist):
             last = k == len(hist) - 1
             doc = DOC_OF[target]
+            if not applicable(w.model[doc], op):
+                continue
             want_ret, want_exc = apply_plain(w.model[doc], op)
             got_ret, got_exc = apply_real(w.owners[target], op)
             w.note(target, op)
@@ -295,7 +315,7 @@ def execute(hist):
                 if not canon.typed_eq(seen, w.model[DOC_OF[t]]):
                     bad("handle-reads-differ", f"{t} reads {seen!r}, dict is {w.model[DOC_OF[t]]!r}",
                         writer=t == hist[-1][0], type_only=type_only_difference(seen, w.model[DOC_OF[t]]),
-                        op=hist[-1][1][0])
+                        op=hist[-1][1][0], none_over_container=none_over_container(seen, w.model[DOC_OF[t]]))
             # a fresh session
             try:
                 p = w.signac.Project(w.path)
@@ -328,7 +348,14 @@ def buffered_variants(item):
     n = 0
     kinds = set()
     skipped = 0
-    for br in (laminar_bracketings(len(hist)) if mode == "all" else [((0, len(hist)),)]):
+    if mode == "all":
+        brs = laminar_bracketings(len(hist))
+    elif mode == "two-blocks":
+        n_ = len(hist)
+        brs = [((0, n_),), ((0, n_ // 2), (n_ // 2, n_)), ((0, n_), (1, n_ - 1)), ((1, n_),), ((0, n_ - 1),)]
+    else:
+        brs = [((0, len(hist)),)]
+    for br in brs:
         if not br:
             continue
         # inside one buffered block a document is used through ONE handle only (the property speaks of the
@@ -382,7 +409,7 @@ def run(ctx):
     # thorough: depth 4 on the small target set, depth 3 on the large one
     st = engine_h.explore(ctx, _exec, max_depth=depth, chunk=16, collect_all=True)
     engine_h.fill_report(report, st)
-    reps = [(h, list(_CFG["targets"]), "all") for h in st.reps]
+    reps = [(h, list(_CFG["targets"]), "all" if len(h) <= 3 else "full-block") for h in st.reps]
     # buffering depends on the history, not only on the state it reaches: every other explored history is run
     # inside one buffered block as well
     reps += [(h, list(_CFG["targets"]), "full-block") for h in st.nonreps]
@@ -391,7 +418,7 @@ def run(ctx):
         _CFG["ops"] = OPS[:15]
         st2 = engine_h.explore(ctx, _exec, max_depth=4, chunk=16, collect_all=True)
         engine_h.fill_report(report, st2)
-        reps += [(h, list(_CFG["targets"]), "all") for h in st2.reps]
+        reps += [(h, list(_CFG["targets"]), "all" if len(h) <= 3 else "two-blocks") for h in st2.reps]
         reps += [(h, list(_CFG["targets"]), "full-block") for h in st2.nonreps]
     # buffered variants of every history that reached a new state
     items = [(h, ctx.seed, _CFG["caps"] if mode == "all" else [None], tg, mode) for h, tg, mode in reps]
